@@ -64,9 +64,10 @@ class Alarm:
 
 
 class PathSummary:
-    def __init__(self, state, ret):
+    def __init__(self, state, ret, mono=None):
         self.state = state
         self.ret = ret
+        self.mono = mono      # direction of the returned value in parameter 0 on this path (+1, -1, 0) or None (not established)
 
 
 class Result:
@@ -1185,6 +1186,7 @@ class Analyzer:
         n = len(insts)
         if st.pc == 0:
             upd = {}
+            mt = {}
             pc = 0
             while pc < n and insts[pc].op == "phi":
                 i = insts[pc]
@@ -1192,12 +1194,19 @@ class Analyzer:
                 for v, lab in i.ops:
                     if lab == st.prev:
                         upd[i.res] = self.val(st, v)
+                        if st.mono is not None:
+                            mt[i.res] = self.mono_of(st, v)
                         found = True
                         break
                 if not found:
                     raise Broken("phi without incoming for %%%s" % st.prev)
                 pc += 1
             st.env.update(upd)
+            for k_, t_ in mt.items():
+                if t_ is None:
+                    st.mono.pop(k_, None)
+                else:
+                    st.mono[k_] = t_
             st.pc = pc
             if pc == 0:
                 st.pc = 0
@@ -1254,7 +1263,150 @@ class Analyzer:
         m = getattr(self, "x_" + op, None)
         if m is None:
             raise Broken("unsupported instruction: %s" % i.text)
-        return m(st, i)
+        if st.mono is None:
+            return m(st, i)
+        nw = st.wraps.head
+        r = m(st, i)
+        if i.res is not None:
+            self.tag_mono(st, i, nw)
+        return r
+
+    # ------------------------------------------------------------ monotonicity tags (opt-in: state.mono is a dict)
+    # tag of an SSA value: +1 / -1 if it is a non-decreasing / non-increasing function of parameter 0 on this path (the other
+    # parameters held fixed), 0 if it does not depend on parameter 0, None if nothing is established. Only operations that are
+    # monotone as functions of real numbers composed with monotone roundings (floor, truncation, round-to-nearest) propagate a
+    # tag, and only when the instruction did not wrap.
+    def mono_of(self, st, o):
+        if not isinstance(o, IR.Operand):
+            return None
+        if o.kind in ("int", "fp", "null", "undef"):
+            return 0
+        if o.kind == "reg":
+            return st.mono.get(o.val)
+        return None
+
+    @staticmethod
+    def _madd(a, b):
+        if a is None or b is None:
+            return None
+        if a == 0:
+            return b
+        if b == 0 or a == b:
+            return a
+        return None
+
+    @staticmethod
+    def _mneg(a):
+        return None if a is None else -a
+
+    def _msign(self, st, o):
+        """+1 if the operand is >= 0 on this state, -1 if <= 0, 0 if exactly 0, None otherwise"""
+        v = self.val(st, o)
+        if isinstance(v, IntV):
+            lo, hi = st.rng(v)
+        elif isinstance(v, FpV):
+            lo, hi, nan = self.frng(st, v)
+            if nan:
+                return None
+        else:
+            return None
+        if lo == hi == 0:
+            return 0
+        if lo >= 0:
+            return 1
+        if hi <= 0:
+            return -1
+        return None
+
+    def _mmul(self, st, oa, ob):
+        ta, tb = self.mono_of(st, oa), self.mono_of(st, ob)
+        if ta is None or tb is None:
+            return None
+        if ta == 0 and tb == 0:
+            return 0
+        sa, sb = self._msign(st, oa), self._msign(st, ob)
+        # d(ab) = a'b + ab'
+        t1 = 0 if ta == 0 or sb == 0 else (None if sb is None else ta * sb)
+        t2 = 0 if tb == 0 or sa == 0 else (None if sa is None else tb * sa)
+        return self._madd(t1, t2)
+
+    def tag_mono(self, st, i, nw):
+        op = i.op
+        tag = None
+        wrapped = False
+        # wrap events recorded while this instruction executed (nw: head of the persistent list before it)
+        n_ = st.wraps.head
+        while n_ is not None and n_ is not nw:
+            if n_[0][2] != 0:
+                wrapped = True
+            n_ = n_[1]
+        try:
+            if wrapped:
+                tag = None
+            elif op in ("add", "fadd"):
+                tag = self._madd(self.mono_of(st, i.ops[0]), self.mono_of(st, i.ops[1]))
+            elif op in ("sub", "fsub"):
+                tag = self._madd(self.mono_of(st, i.ops[0]), self._mneg(self.mono_of(st, i.ops[1])))
+            elif op in ("mul", "fmul"):
+                tag = self._mmul(st, i.ops[0], i.ops[1])
+            elif op in ("shl",):
+                if self.mono_of(st, i.ops[1]) == 0:
+                    tag = self.mono_of(st, i.ops[0])
+            elif op in ("ashr", "lshr"):
+                if self.mono_of(st, i.ops[1]) == 0 and (op == "ashr" or self._msign(st, i.ops[0]) in (0, 1)):
+                    tag = self.mono_of(st, i.ops[0])
+            elif op in ("sdiv", "udiv", "fdiv"):
+                if self.mono_of(st, i.ops[1]) == 0 and (op != "udiv" or self._msign(st, i.ops[0]) in (0, 1)):
+                    sd = self._msign(st, i.ops[1])
+                    ta = self.mono_of(st, i.ops[0])
+                    if sd in (1, -1) and ta is not None:
+                        tag = ta * sd
+            elif op in ("sext", "sitofp", "fpext", "fptrunc", "fptosi", "bitcast"):
+                tag = self.mono_of(st, i.ops[0])
+            elif op in ("zext", "uitofp"):
+                v = self.val(st, i.ops[0])
+                if isinstance(v, BoolV) or self._msign(st, i.ops[0]) in (0, 1):
+                    tag = self.mono_of(st, i.ops[0]) if not isinstance(v, BoolV) else None
+            elif op == "trunc":
+                v = self.val(st, i.ops[0])
+                r = st.env.get(i.res)
+                if isinstance(v, IntV) and isinstance(r, IntV) and st.rng(v) == st.rng(r):
+                    tag = self.mono_of(st, i.ops[0])
+            elif op == "fneg":
+                tag = self._mneg(self.mono_of(st, i.ops[0]))
+            elif op == "select":
+                c = self.val(st, i.ops[0])
+                if isinstance(c, BoolV) and c.tv is not None:
+                    tag = self.mono_of(st, i.ops[1] if c.tv else i.ops[2])
+            elif op == "call":
+                name = i.ops[0]
+                a = i.ops[1:]
+                if name.startswith("llvm.expect."):
+                    tag = self.mono_of(st, a[0])
+                elif name.startswith("llvm.fmuladd."):
+                    tag = self._madd(self._mmul(st, a[0], a[1]), self.mono_of(st, a[2]))
+                elif name in ("sqrt", "llvm.sqrt.f64", "llvm.sqrt.f32"):
+                    tag = self.mono_of(st, a[0])
+                elif ".with.overflow." in name:
+                    # the aggregate carries the tag of its value field (the overflow flag branches to a trap / is path-decided)
+                    if ".sadd." in name or ".uadd." in name:
+                        tag = self._madd(self.mono_of(st, a[0]), self.mono_of(st, a[1]))
+                    elif ".ssub." in name or ".usub." in name:
+                        tag = self._madd(self.mono_of(st, a[0]), self._mneg(self.mono_of(st, a[1])))
+                    elif ".smul." in name or ".umul." in name:
+                        tag = self._mmul(st, a[0], a[1])
+            elif op == "extractvalue":
+                if i.ops[1:] and (i.ops[1] == 0 or getattr(i.ops[1], "val", None) == 0):
+                    tag = self.mono_of(st, i.ops[0])
+            r = st.env.get(i.res)
+            if isinstance(r, FpV) and r.nan:
+                tag = None
+        except (Split, Infeasible, Broken):
+            tag = None
+        if tag is None:
+            st.mono.pop(i.res, None)
+        else:
+            st.mono[i.res] = tag
 
     def x_br(self, st, i):
         return [self.goto(st, i.ops[0])]
@@ -1331,7 +1483,7 @@ class Analyzer:
 
     def x_ret(self, st, i):
         v = self.val(st, i.ops[0]) if i.ops else None
-        self.res.paths.append(PathSummary(st, v))
+        self.res.paths.append(PathSummary(st, v, self.mono_of(st, i.ops[0]) if (i.ops and st.mono is not None) else None))
         return []
 
     def x_phi(self, st, i):
